@@ -251,13 +251,30 @@ class Ctx:
                 return True
         return cfg.must_follow(a, [n for n in tn if n is not a])
 
-    def guards(self, fn, astnode):
+    def guards(self, fn, astnode, all_dominating=False):
         """[(test term, polarity, test ast)] that hold whenever astnode executes."""
         cfg = cfg_of(fn)
         ex = self.ex(fn)
         out = []
+        # For a `raise` the question is always "which test decides this refusal": only the
+        # tests it is nested in count.  A test of an *earlier* refusal that was passed also
+        # dominates it (with the opposite polarity) - counting it would let the negation of
+        # the earlier test satisfy a rule about this one.
+        st = astnode
+        while st is not None and not isinstance(st, ast.stmt):
+            st = getattr(st, '_parent', None)
+        nest_only = None
+        if isinstance(st, ast.Raise) and not all_dominating:
+            nest_only = set()
+            a = getattr(st, '_parent', None)
+            while a is not None and a is not fn.node:
+                if isinstance(a, (ast.If, ast.While, ast.IfExp)):
+                    nest_only.add(id(a.test))
+                a = getattr(a, '_parent', None)
         for (t, pol) in cfg.guards_of(self.node(fn, astnode)):
             if t.kind == 'test':
+                if nest_only is not None and id(t.ast) not in nest_only:
+                    continue
                 term = ex.term(t.ast, t)
                 seen = set()
                 todo = [(term, pol)]
